@@ -67,7 +67,7 @@ THEOREMS = [
     "Ural.Props.C07.infer_bare",
     "Ural.Props.C07.bare_hostname_agrees_infer",
     "Ural.Props.C07.bare_hostname_string_infer",
-    # urls the parser refuses (FX-C07-FPTOTAL): fingerprint_url returns the lower-cased url, the helper answers None
+    # urls the parser refuses (FX-C07-c806a8b): fingerprint_url returns the lower-cased url, the helper answers None
     # exactly when no host can be read in it
     "Ural.Props.C07.fingerprinted_hostname_unparseable",
     "Ural.Props.C07.fingerprinted_hostname_unparseable_string",
@@ -110,7 +110,7 @@ TRUSTED = [
     "ASCII-exact model: str.lower on the model alphabet (DESIGN §4)",
 ]
 ASSUMPTIONS = [
-    "reading (the sentence 'unparseable URLs are outside' is withdrawn for the fingerprint pair, FX-C07-FPTOTAL): on an URL the parser refuses both URL functions return a string (normalize_url its argument, fingerprint_url the lower-cased argument) and must not raise; 'the host of fingerprint_url(u)' is then the host the standard parser reads in that string after a scheme is ensured, nothing when it refuses it too: the helper must answer None exactly when nothing can be read - demanded of urls that need no cleaning and carry no redirection (the helper cleans and resolves, the returned string is the argument itself). Still a reading: a refused PORT ('http://a.com:99999/') leaves a host to read on both sides - neither helper reads .port - and which host it is (www. / language labels are cut by the helper, the returned string is untouched) is compared on parseable URLs only; the normalize pair and the stems clause are demanded of parseable URLs (normalized_/fingerprinted_lru_stems hand the returned string to lru_stems_from_parsed_url)",
+    "reading (the sentence 'unparseable URLs are outside' is withdrawn for the fingerprint pair, FX-C07-c806a8b): on an URL the parser refuses both URL functions return a string (normalize_url its argument, fingerprint_url the lower-cased argument) and must not raise; 'the host of fingerprint_url(u)' is then the host the standard parser reads in that string after a scheme is ensured, nothing when it refuses it too: the helper must answer None exactly when nothing can be read - demanded of urls that need no cleaning and carry no redirection (the helper cleans and resolves, the returned string is the argument itself). Still a reading: a refused PORT ('http://a.com:99999/') leaves a host to read on both sides - neither helper reads .port - and which host it is (www. / language labels are cut by the helper, the returned string is untouched) is compared on parseable URLs only; the normalize pair and the stems clause are demanded of parseable URLs (normalized_/fingerprinted_lru_stems hand the returned string to lru_stems_from_parsed_url)",
     "reading: 'the host of X(u)' is the host the standard parser finds in the result string after a scheme is ensured; when the result has no host at all (the tuple's hostname is empty/None) the helper must return an empty/None host too (None == '')",
     "reading: a URL whose host, as the parser reads it in the cleaned string, begins or ends with whitespace ('http://www.b.com /x', 'http ://x') is outside: the helper's hostname.strip() removes it, normalize_url keeps it; witnessed in Lean (edge_whitespace_witness)",
     "reading: the fingerprint pair is compared with the helper's default infer_redirection=True (fingerprint_url always infers); with False only on URLs carrying no redirection",
@@ -284,7 +284,7 @@ def oracle_url(case):
     # --- fingerprint pair
     t = _g(fingerprint_url, u, unsplit=False, strip_suffix=ss)
     if isinstance(t, _Exc):
-        # "for every URL": an exception is no host (FX-C07-FPTOTAL: the unparseable url was unpacked)
+        # "for every URL": an exception is no host (FX-C07-c806a8b: the unparseable url was unpacked)
         out.append("[fingerprint-raises] fingerprint_url(%r, unsplit=False, strip_suffix=%r) %r while get_fingerprinted_hostname = %r"
                    % (u, ss, t, _g(get_fingerprinted_hostname, u, infer_redirection=inf, strip_suffix=ss)))
     elif isinstance(t, str):
@@ -834,7 +834,7 @@ CONFIGS = [dict(zip(("amp", "infer", "ss", "sa"), bits)) for bits in itertools.p
 
 AMP_PUNY = "xn--amp-tlrama-f7ab"  # 'amp-télérama'
 
-CORPUS_URLS = list(nc.REFUSED_URLS) + [  # FX-C07-FPTOTAL first: fingerprint_url raised on every refused url
+CORPUS_URLS = list(nc.REFUSED_URLS) + [  # FX-C07-c806a8b first: fingerprint_url raised on every refused url
     # D26 (README example), D20, D16
     "fr-FR.facebook.com", "http://fr-FR.facebook.com/x", "https://fr.facebook.com/", "http://fr-fr.co.uk/",
     "http://amp-xn--tlrama-bvab.fr/", "amp-xn--tlrama-bvab.fr", "http://AMP-XN--TLRAMA-BVAB.fr/p", "http://amp-amp-a.com/",
